@@ -180,13 +180,18 @@ func runC17(cfg config) {
 		{"n not a function", sigCoq(false, false, false, false, "[]"), 1007, "n", 42},
 		{"f1 again (duplicate name)", sigCoq(true, true, true, true, "[]"), 1001, "f1", func(in system.Collection) (system.Collection, error) { last = &recv{in, nil}; return ret, nil }},
 		{"where (built-in name)", sigCoq(true, true, true, true, "[]"), 1, "where", func(in system.Collection) (system.Collection, error) { return nil, nil }},
+		{"join(Integer): the name of an experimental function, registered by the user", sigCoq(true, true, true, true, "[PInteger]"), 1020, "join", func(in system.Collection, a system.Integer) (system.Collection, error) {
+			last = &recv{in, []any{a}}
+			return ret, nil
+		}},
 	}
+	joinIdx := len(defs) - 1
 	argForms := []struct{ coq, src string }{{"AInteger", "7"}, {"AString", "'s'"}, {"AOtherVal", "true"}, {"AEmpty", "{}"}, {"AMulti", "%m"}}
 	calls := []struct {
 		name string
 		id   uint64
 		k    int
-	}{{"f0", 1000, 0}, {"f0", 1000, 1}, {"f1", 1001, 0}, {"f1", 1001, 1}, {"f1", 1001, 2}, {"f2", 1002, 2}, {"f2", 1002, 1}, {"fv", 1003, 1}, {"fv", 1003, 0}, {"g", 1004, 0}, {"h", 1005, 0}, {"z", 1006, 0}, {"n", 1007, 0}}
+	}{{"f0", 1000, 0}, {"f0", 1000, 1}, {"f1", 1001, 0}, {"f1", 1001, 1}, {"f1", 1001, 2}, {"f2", 1002, 2}, {"f2", 1002, 1}, {"fv", 1003, 1}, {"fv", 1003, 0}, {"g", 1004, 0}, {"h", 1005, 0}, {"z", 1006, 0}, {"n", 1007, 0}, {"join", 1020, 1}, {"join", 1020, 0}}
 	var lists [][]int
 	for i := range defs {
 		lists = append(lists, []int{i})
@@ -194,10 +199,19 @@ func runC17(cfg config) {
 			lists = append(lists, []int{i, j})
 		}
 	}
+	// an accepted custom function stays the one that is called when the experimental functions are switched on after it
+	// (index -1 stands for compopts.WithExperimentalFuncs(), an option the model ignores)
+	lists = append(lists, []int{joinIdx, -1}, []int{joinIdx, -1, 0}, []int{0, joinIdx, -1})
 	for _, l := range lists {
 		var copts []fhirpath.CompileOption
 		var coqs, labels []string
 		for _, i := range l {
+			if i < 0 {
+				copts = append(copts, compopts.WithExperimentalFuncs())
+				coqs = append(coqs, "COther")
+				labels = append(labels, "WithExperimentalFuncs")
+				continue
+			}
 			copts = append(copts, compopts.AddFunction(defs[i].name, defs[i].fn))
 			coqs = append(coqs, fmt.Sprintf("CAddFunction %s %s", coqN(defs[i].id), defs[i].sig))
 			labels = append(labels, defs[i].label)
